@@ -26,9 +26,9 @@ package main
 
 import (
 	"fmt"
-	"os"
 	"go/token"
 	"go/types"
+	"os"
 	"sort"
 	"strings"
 
@@ -1291,7 +1291,9 @@ func (r *Run) terminates(fn *ssa.Function, depth int) (string, bool) {
 	if reason, ok := terminateTable[fnName(fn)]; ok {
 		return reason, true
 	}
-	if depth > 3 || fn.Signature.Results().Len() != 0 {
+	// a phase may hand back one boolean ("keep serving?") that its caller branches on to leave
+	statusResult := fn.Signature.Results().Len() == 1 && types.Identical(fn.Signature.Results().At(0).Type().Underlying(), types.Typ[types.Bool])
+	if depth > 3 || (fn.Signature.Results().Len() != 0 && !statusResult) {
 		return "", false
 	}
 	reason, callers := "", 0
@@ -1301,6 +1303,37 @@ func (r *Run) terminates(fn *ssa.Function, depth int) (string, bool) {
 		}
 		if _, spawned := e.Site.(*ssa.Go); spawned {
 			return "", false // a new goroutine does not end its spawner's connection by returning
+		}
+		if statusResult {
+			call, ok := e.Site.(*ssa.Call)
+			leaves := false
+			if ok && call.Referrers() != nil {
+				var conds []ssa.Value
+				for _, ref := range *call.Referrers() {
+					if u, ok := ref.(*ssa.UnOp); ok && u.Op == token.NOT {
+						conds = append(conds, u)
+					}
+				}
+				conds = append(conds, call)
+				for _, c := range conds {
+					for _, ref := range *c.Referrers() {
+						iff, ok := ref.(*ssa.If)
+						if !ok {
+							continue
+						}
+						for _, sb := range iff.Block().Succs {
+							if len(sb.Instrs) > 0 {
+								if _, isRet := sb.Instrs[len(sb.Instrs)-1].(*ssa.Return); isRet && len(sb.Instrs) <= 2 {
+									leaves = true
+								}
+							}
+						}
+					}
+				}
+			}
+			if !leaves {
+				return "", false
+			}
 		}
 		why, ok := r.terminates(e.Caller, depth+1)
 		if !ok {
